@@ -64,6 +64,18 @@ CHECKS["C01"] = dict(
     parts=[rapid_part("rapid", "compose", "TestC01", 6000, 60000, replay_test="TestC01Replay")],
 )
 
+CHECKS["C02"] = dict(
+    technique="property-based testing (rapid): generated all-predecessor graphs and Workflows vs a reference DAG evaluator, with enumeration of all top-level branch outcome vectors; exhaustive small-scope enumeration of report sequences on one dagChannel (white-box)",
+    level_text="Generated-input search over acyclic shapes in AllPredecessor graph mode and Workflow mode (control-only, data-only and combined dependencies, field mappings to map keys, single/multi branches incl. empty selection, converging branches, nested skips, nested graphs). Each run is compared with a reference evaluator written from the statement: which nodes ran (each at most once, with which input), the output, or the failure when END is skipped. For specs with <= 3 top-level branches every combination of branch outcomes is forced on the same compiled object. A white-box sub-check drives one dagChannel with every report sequence for up to 3 control x 2 data predecessors and compares readiness/skip/value set with a small reference.",
+    level_note="Nodes that do not lead to END may or may not have started when the run returns; their executions are accepted either way (the statement does not fix it). Merge failures whose visibility depends on step timing are skipped and counted (label ambiguous-skipped).",
+    rule="rapid draws an acyclic GraphSpec (dag or workflow mode) by construction plus input and calling form; non-trivial = at least one node skipped and either a node with both finished and skipped control predecessors or a workflow with a control-only/data-only dependency; distinct = FNV-1a of case JSON; outcome vectors run are counted in extra.outcome_vectors_run",
+    assumptions=GRAPH_ASSUME,
+    exhaustive_part="TestC02ChannelEnum enumerates all report sequences for one dagChannel with <=3 control and <=2 data predecessors",
+    parts=[rapid_part("rapid", "compose", "TestC02", 5000, 50000, replay_test="TestC02Replay"),
+           dict(name="channel-enum", pkg="compose", run="TestC02ChannelEnum", kind="plain", replay_test="TestC02ChannelReplay",
+                quick=dict(timeout=300), thorough=dict(timeout=300))],
+)
+
 # properties not claimed (with reason); everything else not in CHECKS is "not built yet"
 NOT_APPLICABLE = {}
 
